@@ -92,6 +92,8 @@ func zip(name string, fs ...fam) fam {
 
 var repU []fam
 
+var edgeInts = boundaryInts()
+
 func init() {
 	i0, i1, im1, i2, i3, i4, i10 := intFam("0"), intFam("1"), intFam("-1"), intFam("2"), intFam("3"), intFam("4"), intFam("10")
 	p53, maxi, mini := intFam("9007199254740992"), intFam("9223372036854775807"), intFam("-9223372036854775808")
@@ -555,7 +557,7 @@ func genNumPair(t *rapid.T, label string) (any, any) {
 		var b *big.Int
 		switch rapid.IntRange(0, 4).Draw(t, label+"intkind") {
 		case 4:
-			b = new(big.Int).Set(rapid.SampledFrom(boundaryInts()).Draw(t, label+"edge"))
+			b = new(big.Int).Set(rapid.SampledFrom(edgeInts).Draw(t, label+"edge"))
 		case 0:
 			b = big.NewInt(int64(rapid.IntRange(-5, 12).Draw(t, label+"small")))
 		case 1:
